@@ -114,7 +114,8 @@ def run_kind(family, kind, timeout_ms=None, config=None):
             # an exception escaped that the family's contract did not account for: the path must be infeasible
             tb = "".join(traceback.format_exception_only(type(pr.exc), pr.exc)).strip()
             where = traceback.extract_tb(pr.exc.__traceback__)[-1]
-            if isinstance(pr.exc, (AttributeError, NameError)) and "vf/sym" in (where.filename or ""):
+            if isinstance(pr.exc, z3.Z3Exception) or (
+                    isinstance(pr.exc, (AttributeError, NameError, KeyError)) and "vf/sym" in (where.filename or "")):
                 out["obligations"].append({"name": f"{family.name}/{kind}/path={path}/engine", "status": "undecided",
                                            "reason": f"engine error: {tb}", "time": 0.0, "kind": "engine"})
                 continue
